@@ -396,3 +396,9 @@ func LoadReplay(t TB, path string, v interface{}) {
 		t.Fatalf("replay: %v", err)
 	}
 }
+
+// ClearFailure removes this shard's failure file (used after a dedicated
+// known-finding sub-run, whose expected failure must not count).
+func ClearFailure(id string) {
+	_ = os.Remove(filepath.Join(OutDir(), fmt.Sprintf("fail-%s-%d.json", id, Shard())))
+}
